@@ -210,6 +210,19 @@ func persistedTXID(path string) int {
 	return int(n)
 }
 
+// missedRange: transactions (lo, hi] (only the listed ones if only != nil)
+// whose pages the history says never reached the hydrated copy.
+type missedRange struct {
+	key    string
+	lo, hi int
+	only   map[int]bool
+	why    string
+}
+
+func (v *view) miss(key string, lo, hi int, only map[int]bool, why string) {
+	v.missed = append(v.missed, missedRange{key: key, lo: lo, hi: hi, only: only, why: why})
+}
+
 // noteResume records the history predicate of keyHydResume: the hydrated copy
 // is resumed at TXID r (its catch-up lists level 0 from r+1) and level-0 files
 // in (r, pos] are no longer on the replica.
@@ -220,20 +233,26 @@ func (h *harness) noteResume(v *view, r int) {
 	}
 	v.resumeFrom = r
 	h.res.Count("hydration_resumed_from_persistent_file", 1)
-	var gone []string
+	gone := map[int]bool{}
+	var names []string
 	for n := r + 1; n <= pos; n++ {
 		if _, err := os.Stat(h.client.LTXFilePath(0, ltx.TXID(n), ltx.TXID(n))); os.IsNotExist(err) {
-			gone = append(gone, strconv.Itoa(n))
+			gone[n] = true
+			if len(names) < 8 {
+				names = append(names, strconv.Itoa(n))
+			}
 		}
 	}
+	why := ""
 	if len(gone) > 0 {
-		if len(gone) > 8 {
-			gone = append(gone[:8], "...")
+		if len(gone) > len(names) {
+			names = append(names, "...")
 		}
-		v.resumeGap = fmt.Sprintf("persistent hydrated copy resumed at TXID %d, position %d, level-0 files no longer on the replica: %s", r, pos, strings.Join(gone, ","))
+		why = fmt.Sprintf("persistent hydrated copy resumed at TXID %d, position %d, level-0 files no longer on the replica: %s", r, pos, strings.Join(names, ","))
+		v.miss(keyHydResume, r, pos, gone, why)
 		h.res.Count("hydration_resume_with_level0_gap", 1)
 	}
-	h.e.Logf("%s view: persistent hydrated copy at TXID %d, position %d, level-0 gap: %q", v.label, r, pos, v.resumeGap)
+	h.e.Logf("%s view: persistent hydrated copy at TXID %d, position %d, level-0 gap: %q", v.label, r, pos, why)
 }
 
 // awaitHydration blocks until the hydration goroutine of the view has
@@ -256,6 +275,8 @@ func (h *harness) awaitHydration(v *view) bool {
 	w.mu.Unlock()
 	h.e.Logf("%s view hydration finished: complete=%v %s resumed=%q catch-up=%q", v.label, completed, failed, resumed, catchUp)
 	if completed {
+		// the copy is restored (or caught up) to the position the goroutine saw when it started
+		v.hydAt = int(v.posAtOpen)
 		h.res.Count("hydration_completed", 1)
 		if resumed != "" {
 			h.res.Count("hydration_completed_by_resume", 1)
@@ -306,6 +327,7 @@ func (h *harness) releaseHydration(v *view) {
 	}
 	if v.tt {
 		fx := v.ttFx
+		fx.ref = v.ttTXID
 		fx.kind = "hydration-completes-in-time-travel"
 		h.compares++
 		h.res.Count("compare_"+fx.kind, 1)
@@ -313,26 +335,66 @@ func (h *harness) releaseHydration(v *view) {
 		h.e.Logf("%s view %s: view pos=%d -> ok=%v", v.label, fx.kind, v.f.Pos().TXID, ok)
 		return
 	}
-	fx := facts{kind: "hydration-completes", desc: fmt.Sprintf("hydration started at position %d, now %d", v.posAtGate, v.f.Pos().TXID)}
+	fx := facts{kind: "hydration-completes", desc: fmt.Sprintf("hydration started at position %d, now %d", v.posAtOpen, v.f.Pos().TXID)}
 	h.compare(v, fx)
 }
 
-// hydClassify applies the hydration predicates; they take precedence over the
-// index predicates because a view that serves from its hydrated copy does not
-// consult the index.
+// hydClassify applies the hydration predicates. They are history predicates
+// that have to explain every page of the symptom (as cursorSeedingExplains
+// does for F18); a page they do not explain leaves the violation generic.
+//
+//   - time-travel view: SetTargetTime ran while the hydration was in flight, the
+//     hydration has completed since, and every bad page was last written (up to
+//     the hydrated copy's TXID) after the TXID the view stands for, or lies
+//     beyond the hydrated copy's size.
+//   - latest view served from the hydrated copy: the last writer (<= the
+//     reference TXID) of every bad page is a transaction the history says never
+//     reached the hydrated copy: polled (or reached through ResetTime) while the
+//     hydration was in flight, skipped by a ResetTime that moved the position, or
+//     missing from level 0 when a persistent copy was resumed.
 func (h *harness) hydClassify(v *view, fx facts) (string, string) {
-	if v.hw == nil {
+	if v.hw == nil || len(fx.badPages) == 0 || fx.ref == 0 {
 		return "", ""
 	}
-	switch {
-	case v.ttDuringHyd != "" && v.tt:
-		return keyHydTT, v.ttDuringHyd + "; " + fx.desc
-	case v.polledDuringHyd != "":
-		return keyHydPoll, v.polledDuringHyd + "; " + fx.desc
-	case v.resetPastHyd != "":
-		return keyHydReset, v.resetPastHyd + "; " + fx.desc
-	case v.resumeGap != "" && v.hw.serving():
-		return keyHydResume, v.resumeGap + "; " + fx.desc
+	_, completed, _, disabled, _ := v.hw.state()
+	if v.tt {
+		if v.ttDuringHyd == "" || !completed || disabled > 0 {
+			return "", ""
+		}
+		var commit uint32
+		if lf := h.e.Arch.Files[v.hydAt]; lf != nil {
+			commit = lf.Hdr.Commit
+		}
+		for _, pg := range fx.badPages {
+			if lw := h.lastWriter(pg, v.hydAt); lw <= v.ttTXID && uint32(pg) <= commit {
+				return "", ""
+			}
+		}
+		return keyHydTT, fmt.Sprintf("%s and has completed since (hydrated copy at TXID %d, view stands for TXID %d); %s", v.ttDuringHyd, v.hydAt, v.ttTXID, fx.desc)
 	}
-	return "", ""
+	if !v.hw.serving() {
+		return "", ""
+	}
+	var first *missedRange
+	for _, pg := range fx.badPages {
+		lw := h.lastWriter(pg, fx.ref)
+		var hit *missedRange
+		for i := range v.missed {
+			m := &v.missed[i]
+			if lw > m.lo && lw <= m.hi && (m.only == nil || m.only[lw]) {
+				hit = m
+				break
+			}
+		}
+		if hit == nil {
+			return "", ""
+		}
+		if first == nil {
+			first = hit
+		}
+	}
+	if first == nil {
+		return "", ""
+	}
+	return first.key, first.why + "; every differing page was last written by a transaction in that range; " + fx.desc
 }
